@@ -289,7 +289,9 @@ class C37(hc.PProp):
             if not e:
                 continue
             end = order[i + 1][0] if i + 1 < len(order) else 1 << 62
-            tried = [sc.peeraddr.rsplit(':', 1)[0] for sc in sconns if seq < sc.opened[0] < end]
+            # connections to the name server itself (10.0.0.53:53) are squid's DNS-over-TCP retries after a truncated (TC) answer, not connections to a resolved address
+            tried = [sc.peeraddr.rsplit(':', 1)[0] for sc in sconns if seq < sc.opened[0] < end and not sc.peeraddr.endswith(':53')]
+            stats['dns_tcp_retries'] = stats.get('dns_tcp_retries', 0) + sum(1 for sc in sconns if seq < sc.opened[0] < end and sc.peeraddr.endswith(':53'))
             final = cv.finals[0] if cv.finals else None
             if e['well']:
                 stats['wellformed_judged'] += 1
